@@ -1648,6 +1648,33 @@ static void c05_arrival(Run &run, Resp &rs, VFd &sock) {
     bool has = false;
     if (last) if (const dnsref::RR *o = last->msg.opt()) for (auto &op : o->opts) if (op.code == 10 && op.data.size() >= 8) has = true;
     if (!has) { rs.defect &= ~(DEF_BAD_COOKIE | DEF_NO_COOKIE); run.note("cookie_forgery_against_cookieless_query"); }
+    if (has && (rs.defect & DEF_NO_COOKIE)) {
+      // A missing cookie must be refused once the server has proven support - unless the library may legitimately have started
+      // over: a cookie-less answer was read from that server (a genuine FORMERR without OPT, or an earlier forgery), no answer with
+      // a valid cookie was accepted after it, and 120 s later the library sent to that server again (that send resets the state).
+      int64_t now = W.now_us;
+      std::set<int> delivered;
+      for (auto &q : run.reqs) for (uint32_t m : q.markers) { auto it = W.marker_resp.find(m); if (it != W.marker_resp.end()) delivered.insert(it->second); }
+      (void)now;
+      // (ordered by call-log sequence: several packets are read at the same virtual instant)
+      std::vector<uint32_t> valid_seqs;
+      for (auto &x : W.resps) if (x.server == T.server && !x.tcp && !x.forged && delivered.count(x.id) && cookie_of(x.msg).size() >= 16 && !x.read_seqs.empty()) valid_seqs.push_back(x.read_seqs[0]);   // (a duplicate copy read later finds no query any more)
+      bool sent_after_period = false;
+      for (auto &x : W.resps) {
+        if (x.server != T.server || x.tcp || x.id == rs.id || x.rcode == 23 || cookie_of(x.msg).size() >= 16) continue;
+        for (size_t k = 0; k < x.read_seqs.size() && k < x.read_times.size() && !sent_after_period; k++) {
+          uint32_t sc = x.read_seqs[k]; int64_t tc = x.read_times[k];
+          // a send to that server at least 120 s later, with no accepted valid cookie in between, starts over
+          for (auto &t : W.txs) {
+            if (t.server != T.server || t.tcp || t.seq <= sc || t.t < tc + 115LL * 1000000) continue;
+            bool reset = false;
+            for (uint32_t v : valid_seqs) if (v > sc && v < t.seq) reset = true;
+            if (!reset) { sent_after_period = true; break; }
+          }
+        }
+      }
+      if (sent_after_period) { rs.defect &= ~DEF_NO_COOKIE; run.note("cookie_forgery_after_possible_regression"); }
+    }
     return;
   }
   if (rs.forged) {
